@@ -193,7 +193,63 @@ static uint64_t run_case(const TinyLP& t, const ConfigSpace::Cfg& cfg, bool exac
       if(!j.empty()) c.violation("resume-wrong:" + where + (wsFree ? "+warmstart-with-nonbasic-free-row" : ""), cs, "after stop with status " + std::to_string(st) + ": " + j + pt);
       h = h * 31 + st * 7 + st2;
    };
+   // second-stage stops: the interrupt flag is already raised when optimize() is called (a) on an object that was stopped by ITERLIMIT k before (it continues from the stored
+   // basis) and (b) from scratch with far-away objective limits set. The call must come back with ABORT_TIME; a verdict is accepted only if the call performed no simplex
+   // iteration (the state was already final). Afterwards the flag is cleared and the solve must finish with the true verdict.
+   auto interrupted_continuation = [&](long k, bool objlimits)
+   {
+      vclock_reset();
+      SoPlex spx;
+      prepare(spx, su);
+      std::string where = std::string(objlimits ? "interrupt-at-entry-with-objlimits@" : "interrupt-at-entry-after-iterlimit-stop@") + cfgs;
+      std::string pt = " [first stop: ITERLIMIT " + std::to_string(k) + " of N=" + std::to_string(N) + "]";
+      int st1 = 0, st2, st3;
+      try
+      {
+         if(objlimits) { spx.setRealParam(SoPlex::OBJLIMIT_LOWER, -1e6); spx.setRealParam(SoPlex::OBJLIMIT_UPPER, 1e6); }
+         else
+         {
+            spx.setIntParam(SoPlex::ITERLIMIT, (int)k);
+            st1 = (int)spx.optimize();
+            if(st1 != -6) return;      // not stopped: nothing to continue
+            spx.setIntParam(SoPlex::ITERLIMIT, -1);
+         }
+         g_interrupt = true;
+         st2 = (int)spx.optimize(&g_interrupt);
+         int it2 = spx.numIterations();
+         c.count("interrupted_continuations");
+         c.count("interrupted_continuation_status." + std::to_string(st2));
+         std::string v = judge_verdict(st2, spx.objValueReal(), cl);
+         if(!v.empty()) { c.violation("false-verdict-when-stopped:" + where, cs, v + pt); return; }
+         if(st2 != -7 && it2 > 0) { c.violation("interrupt-ignored:" + where, cs, "optimize(&flag) with the flag raised on entry returned status " + std::to_string(st2) + " after " + std::to_string(it2) + " simplex iterations" + pt); return; }
+         if(spx.hasBasis()) { std::string b = basis_valid(spx, mo); if(!b.empty()) { c.violation("invalid-basis-after-stop:" + where, cs, b + pt); return; } }
+         g_interrupt = false;
+         spx.setRealParam(SoPlex::OBJLIMIT_LOWER, -1e100);
+         spx.setRealParam(SoPlex::OBJLIMIT_UPPER, 1e100);
+         bool wsFree = false;
+         if(spx.hasBasis())
+         {
+            std::vector<SPxSolver::VarStatus> rs(t.m + 1), csx(t.n + 1);
+            spx.getBasis(rs.data(), csx.data());
+            for(int i = 0; i < t.m; ++i) if(rs[i] == SPxSolver::ZERO) wsFree = true;
+         }
+         st3 = (int)spx.optimize();
+         std::string j = judge_final(st3, spx.objValueReal(), cl);
+         if(!j.empty()) c.violation("resume-wrong:" + where + (wsFree ? "+warmstart-with-nonbasic-free-row" : ""), cs, "after stops with status " + std::to_string(st1) + ", " + std::to_string(st2) + ": " + j + pt);
+         h = h * 31 + st2 * 7 + st3;
+      }
+      catch(const SPxException& e)
+      {
+         c.violation("exception:" + where, cs, std::string(e.what()) + pt);
+      }
+   };
    for(long k = 0; k <= N + 1 && k <= 40; ++k) { set_sub(k); stopped_run(K_ITER, k, 0, 0); }
+   if(!exact)
+   {
+      for(long k = 0; k < N && k <= 12; ++k) { set_sub(500 + k); interrupted_continuation(k, false); }
+      set_sub(499);
+      interrupted_continuation(0, true);
+   }
    if(!exact || C < 400)
    {
       long step = C > 300 ? C / 150 : 1;
@@ -266,7 +322,7 @@ int main(int argc, char** argv)
       c.count("lp_x_cfg");
       return run_case(t, cfgs[idx % NC], false, c);
    }, [&](uint64_t idx, uint64_t) { TinyLP t; lpAt(idx / NC, t); return t.str() + "#" + g_cs.str(cfgs[idx % NC]); }, o,
-   [&](uint64_t idx, uint64_t sub) { return std::string("@") + (sub >= 999999 ? "timelimit0" : sub >= 100000 ? "timelimit" : sub >= 1000 ? "interrupt" : "iterlimit") + "|" + g_cs.str(cfgs[idx % NC]); });
+   [&](uint64_t idx, uint64_t sub) { return std::string("@") + (sub >= 999999 ? "timelimit0" : sub >= 100000 ? "timelimit" : sub >= 1000 ? "interrupt" : sub >= 499 ? "interrupt-at-entry" : "iterlimit") + "|" + g_cs.str(cfgs[idx % NC]); });
    uint64_t stride2 = fs.total / (thorough ? 6000 : 600) + 1;
    rep.phase("stop points: exact solves", (fs.total / stride2) * 2, [&](uint64_t idx, int, Ctx & c) -> uint64_t
    {
@@ -286,7 +342,7 @@ int main(int argc, char** argv)
       return t.str() + "#" + g_cs.str(cfgs[(idx % 2) ? 0 : 7]) + "#exact";
    }, o);
    auto& C = rep.all.counters;
-   uint64_t stopped = C["stopped_runs.iterlimit"] + C["stopped_runs.interrupt"] + C["stopped_runs.timelimit"] + C["stopped_runs.timelimit0"] + C["stopped_runs.objlimit"];
+   uint64_t stopped = C["stopped_runs.iterlimit"] + C["stopped_runs.interrupt"] + C["stopped_runs.timelimit"] + C["stopped_runs.timelimit0"] + C["stopped_runs.objlimit"] + C["interrupted_continuations"];
    rep.evaluations = C["reference_runs"] + stopped + C["resumed_runs"];
    rep.rule = "fault/stop-point enumeration: for each (LP, configuration) one reference run under the virtual clock, then one run per stop point - every iteration limit 0..N+1, the interrupt "
               "flag and a clock jump past the time limit at every clock read (every C/150-th when C > 300), time limit 0, and eight objective limits around the exact optimum - each followed by a resumed run; "
